@@ -9,6 +9,7 @@ from urllib.parse import urlsplit
 
 from vf.monitor import Probes
 
+MIN_RANDOM = 150  # random iterations run per shard whatever the wall-clock budget (floors must not depend on machine load)
 SHARDS = {"quick": 4, "thorough": 16}
 BUDGET = {"quick": 20, "thorough": 200}
 MIN_CASES = {"quick": 5000, "thorough": 100000}
@@ -206,7 +207,7 @@ def run(ctx):
                             ctx.sample("pairwise", u)
             ctx.exhaustive_space("single/pairwise deviations from two base URLs over the 7 component dimensions", len(seen) // ctx.nshards)
             n = 0
-            while ctx.time_left() and n < 12000:
+            while (ctx.time_left() or n < MIN_RANDOM) and n < 12000:
                 n += 1
                 u = render([rng.choice(d) for d in DIMS])
                 for sa in (False, True):
@@ -231,7 +232,7 @@ def run(ctx):
         labels = ["a", "www", "example", "co", "uk", "com", "fr", "ck", "foo", "x1", "a-b", "ünï", "xn--bcher-kva", "amazonaws", "compute", "kawasaki", "jp", "city", "zzzz"]
         n = 0
         lim = 3000 if ctx.tier == "quick" else 10 ** 7
-        while ctx.time_left() and n < lim:
+        while (ctx.time_left() or n < MIN_RANDOM) and n < lim:
             n += 1
             def txt(k, extra=""):
                 return "".join(rng.choice(toks) for _ in range(rng.randint(0, k))) + extra
